@@ -220,6 +220,9 @@ class Tr:
                     self.pre += ['(SAssign %s (EIndex (EVar %s) (EConst (VInt (-1)))))' % (t, x),
                                  '(SAssign %s (ESlice (EVar %s) (EConst VNone) (EConst (VInt (-1)))))' % (x, x)]
                 return '(EVar %s)' % t
+            if isinstance(f, ast.Attribute) and dotted(f.value) == 'self.SeqObj' and not e.keywords:
+                # the public class forwarding to its backend object: primitive "SeqObj.<method>"(args)
+                return '(ECall %s [%s])' % (cstring('SeqObj.' + f.attr), '; '.join(self.expr(a) for a in e.args))
             if isinstance(f, ast.Attribute) and isinstance(f.value, ast.Name) and f.value.id == 'self':
                 # a call of another method of the object: interpreted by the tie's primitive table
                 name = f.attr + ''.join('|' + k.arg for k in e.keywords)
@@ -345,7 +348,8 @@ class Tr:
         if isinstance(s, ast.Expr) and isinstance(s.value, ast.Call) and dotted(s.value.func) in LOG_CALLS:
             return 'SSkip'
         if isinstance(s, ast.Expr) and isinstance(s.value, ast.Call) and isinstance(s.value.func, ast.Attribute) \
-                and isinstance(s.value.func.value, ast.Name) and s.value.func.value.id == 'self' and s.value.func.attr.startswith('__check'):
+                and isinstance(s.value.func.value, ast.Name) and s.value.func.value.id == 'self' \
+                and (s.value.func.attr.startswith('__check') or s.value.func.attr.startswith('__verify')):
             return '(SAssign "$_" %s)' % self.expr(s.value)          # a guard method called for its exception
         if isinstance(s, ast.Assign) and len(s.targets) == 1 and isinstance(s.targets[0], ast.Tuple) and isinstance(s.value, ast.Call):
             # (a, b, ...) = f(...): the call's result is bound once, then unpacked by position
@@ -463,6 +467,45 @@ FUNCS = [
     ('g_Omega_seq', 'localcider/backend/sequence.py', 'Sequence', 'Omega_seq', []),
     ('g_parseSeqFile', 'localcider/backend/seqfileparser.py', 'SequenceFileParser', 'parseSeqFile', []),
     ('g_init_core', 'localcider/backend/sequence.py', 'Sequence', '__init__', [], ('upto', 'self.dmax = dmax')),
+    ('g_fw_get_length', 'localcider/sequenceParameters.py', 'SequenceParameters', 'get_length', []),
+    ('g_fw_get_mean_hydropathy', 'localcider/sequenceParameters.py', 'SequenceParameters', 'get_mean_hydropathy', []),
+    ('g_fw_get_uversky_hydropathy', 'localcider/sequenceParameters.py', 'SequenceParameters', 'get_uversky_hydropathy', []),
+    ('g_fw_get_WW_hydropathy', 'localcider/sequenceParameters.py', 'SequenceParameters', 'get_WW_hydropathy', []),
+    ('g_fw_get_fraction_disorder_promoting', 'localcider/sequenceParameters.py', 'SequenceParameters', 'get_fraction_disorder_promoting', []),
+    ('g_fw_get_amino_acid_fractions', 'localcider/sequenceParameters.py', 'SequenceParameters', 'get_amino_acid_fractions', []),
+    ('g_fw_get_SCD', 'localcider/sequenceParameters.py', 'SequenceParameters', 'get_SCD', []),
+    ('g_fw_get_kappa', 'localcider/sequenceParameters.py', 'SequenceParameters', 'get_kappa', []),
+    ('g_fw_get_Omega', 'localcider/sequenceParameters.py', 'SequenceParameters', 'get_Omega', []),
+    ('g_fw_get_Omega_sequence', 'localcider/sequenceParameters.py', 'SequenceParameters', 'get_Omega_sequence', []),
+    ('g_fw_get_kappa_X', 'localcider/sequenceParameters.py', 'SequenceParameters', 'get_kappa_X', []),
+    ('g_fw_get_deltaMax', 'localcider/sequenceParameters.py', 'SequenceParameters', 'get_deltaMax', []),
+    ('g_fw_get_delta', 'localcider/sequenceParameters.py', 'SequenceParameters', 'get_delta', []),
+    ('g_fw_get_countPos', 'localcider/sequenceParameters.py', 'SequenceParameters', 'get_countPos', []),
+    ('g_fw_get_countNeg', 'localcider/sequenceParameters.py', 'SequenceParameters', 'get_countNeg', []),
+    ('g_fw_get_countNeut', 'localcider/sequenceParameters.py', 'SequenceParameters', 'get_countNeut', []),
+    ('g_fw_get_fraction_positive', 'localcider/sequenceParameters.py', 'SequenceParameters', 'get_fraction_positive', []),
+    ('g_fw_get_fraction_negative', 'localcider/sequenceParameters.py', 'SequenceParameters', 'get_fraction_negative', []),
+    ('g_fw_get_isoelectric_point', 'localcider/sequenceParameters.py', 'SequenceParameters', 'get_isoelectric_point', []),
+    ('g_fw_get_molecular_weight', 'localcider/sequenceParameters.py', 'SequenceParameters', 'get_molecular_weight', []),
+    ('g_fw_get_phasePlotRegion', 'localcider/sequenceParameters.py', 'SequenceParameters', 'get_phasePlotRegion', []),
+    ('g_fw_get_phosphosites', 'localcider/sequenceParameters.py', 'SequenceParameters', 'get_phosphosites', []),
+    ('g_fw_get_all_phosphorylatable_sites', 'localcider/sequenceParameters.py', 'SequenceParameters', 'get_all_phosphorylatable_sites', []),
+    ('g_fw_get_phosphosequence', 'localcider/sequenceParameters.py', 'SequenceParameters', 'get_phosphosequence', []),
+    ('g_fw_get_PPII_propensity', 'localcider/sequenceParameters.py', 'SequenceParameters', 'get_PPII_propensity', []),
+    ('g_fw_get_linear_sigma', 'localcider/sequenceParameters.py', 'SequenceParameters', 'get_linear_sigma', []),
+    ('g_fw_get_linear_NCPR', 'localcider/sequenceParameters.py', 'SequenceParameters', 'get_linear_NCPR', []),
+    ('g_fw_get_linear_FCR', 'localcider/sequenceParameters.py', 'SequenceParameters', 'get_linear_FCR', []),
+    ('g_fw_get_linear_hydropathy', 'localcider/sequenceParameters.py', 'SequenceParameters', 'get_linear_hydropathy', []),
+    ('g_fw_get_linear_sequence_composition', 'localcider/sequenceParameters.py', 'SequenceParameters', 'get_linear_sequence_composition', []),
+    ('g_fw_get_reduced_alphabet_sequence', 'localcider/sequenceParameters.py', 'SequenceParameters', 'get_reduced_alphabet_sequence', []),
+    ('g_fw_get_HTMLColorString', 'localcider/sequenceParameters.py', 'SequenceParameters', 'get_HTMLColorString', []),
+    ('g_fw_get_FCR', 'localcider/sequenceParameters.py', 'SequenceParameters', 'get_FCR', []),
+    ('g_fw_get_NCPR', 'localcider/sequenceParameters.py', 'SequenceParameters', 'get_NCPR', []),
+    ('g_fw_get_mean_net_charge', 'localcider/sequenceParameters.py', 'SequenceParameters', 'get_mean_net_charge', []),
+    ('g_fw_get_fraction_expanding', 'localcider/sequenceParameters.py', 'SequenceParameters', 'get_fraction_expanding', []),
+    ('g_fw_get_kappa_after_phosphorylation', 'localcider/sequenceParameters.py', 'SequenceParameters', 'get_kappa_after_phosphorylation', []),
+    ('g_fw_get_sequence', 'localcider/sequenceParameters.py', 'SequenceParameters', 'get_sequence', []),
+    ('g_verify_pH', 'localcider/sequenceParameters.py', 'SequenceParameters', '__verify_pH', []),
     ('g_SCD', 'localcider/backend/sequence.py', 'Sequence', 'sequence_charge_decoration', []),
     ('g_countPos', 'localcider/backend/sequence.py', 'Sequence', 'countPos', []),
     ('g_countNeg', 'localcider/backend/sequence.py', 'Sequence', 'countNeg', []),
